@@ -524,6 +524,11 @@ func (af *AdaptationField) SetTransportPrivateData(data []byte) error {
 	delta := len(data) - (af.transportPrivateDataLength() - 1)
 	start := af.transportPrivateDataStart() + 1
 	end := start + len(data)
+	if delta != 0 {
+		// data may be a view into this very packet (part of what a getter
+		// returned): resizing the field moves and re-stuffs those bytes
+		data = append([]byte(nil), data...)
+	}
 	err := af.resizeAF(start, delta)
 	if err != nil {
 		return err
@@ -591,6 +596,11 @@ func (af *AdaptationField) SetAdaptationFieldExtension(data []byte) error {
 	delta := len(data) - (af.adaptationExtensionLength() - 1)
 	start := af.adaptationExtensionStart() + 1
 	end := start + len(data)
+	if delta != 0 {
+		// data may be a view into this very packet (part of what a getter
+		// returned): resizing the field moves and re-stuffs those bytes
+		data = append([]byte(nil), data...)
+	}
 	err := af.resizeAF(start, delta)
 	if err != nil {
 		return err
